@@ -2,7 +2,7 @@
 import re
 from .. import slicecheck
 from ..analysis import strip_through
-from ..analysis import Branches, Origins, edge_dominates, fmt_terms, reach_avoiding
+from ..analysis import Branches, Origins, edge_dominates, fmt_terms, reach_avoiding, strip_through
 from ..parsing import AST, P, region_aggs
 
 fs = frozenset
@@ -222,21 +222,46 @@ def check_index(ctx, lib):
     gi = ctx.fn("variable::Variable::get_index", rule=rule)
     if gi is not None:
         go = Origins(gi, lib)
-        ret = go.of_local(0)
-        elem = [t for t in ret if t[0] == "elem" or (t[0] == "call" and t[1].endswith("::get"))]
-        nul = [t for t in ret if t[0] == "agg" and t[1] == "variable::Variable::Null"]
+        # spelling-independent (if let / Option chain): one bounds-checked `get(index)` on self's array; the result is that element or null
+        ARR = ({("field", ("param", 1), "Array.0")}, {("view", "array", ("param", 1))})
+        ret = {strip_through(t) for t in go.of_local(0)}
         gets = [t for _, t in gi.calls() if t["callee"].endswith("::get")]
-        ok = len(ret) == 2 and len(elem) == 1 and len(nul) == 1 and len(gets) == 1 and \
-            go.of_operand(gets[0]["args"][1]) == {("param", 2)} and go.of_operand(gets[0]["args"][0]) == {("field", ("param", 1), "Array.0")}
+        idxs = [t for _, t in gi.calls() if t["callee"] in ("std::ops::Index::index", "std::ops::IndexMut::index_mut")]
+        ok = len(gets) == 1 and not idxs and go.of_operand(gets[0]["args"][1]) == {("param", 2)} and go.of_operand(gets[0]["args"][0]) in ARR
+        nul = [t for t in ret if t[0] == "agg" and t[1] == "variable::Variable::Null"]
+        elem = [t for t in ret if t[0] == "call" and t[1].endswith("::get")]
+        ok = ok and bool(nul) and bool(elem) and len(nul) + len(elem) == len(ret)
         ctx.check(ok, rule, "get_index", "get_index returns array.get(index) or null (bounds-checked lookup, no panic)", gi.span)
     gn = ctx.fn("variable::Variable::get_negative_index", rule=rule)
     if gn is not None:
         go = Origins(gn, lib)
         gb = Branches(gn, go)
         ic = [(bb, t) for bb, t in gn.calls() if t["callee"] == "std::ops::Index::index"]
+        ARR = ({("field", ("param", 1), "Array.0")}, {("view", "array", ("param", 1))})
+        gets = [t for _, t in gn.calls() if t["callee"].endswith("::get")]
         ok = len(ic) == 1
         detail = ""
-        if ok:
+        if not ic and len(gets) == 1:
+            # array.get(len.checked_sub(max(n, 1))?): both steps are checked, nothing can go out of range
+            ix = go.of_operand(gets[0]["args"][1])
+            def is_adj(t):
+                return t[0] == "call" and t[1] in ("std::cmp::max", "std::cmp::Ord::max") and fs({("const", 1)}) in t[2] and fs({("param", 2)}) in t[2]
+            ok = go.of_operand(gets[0]["args"][0]) in ARR and bool(ix) and all(
+                x[0] == "call" and x[1].endswith("::checked_sub") and all(y[0] == "call" and y[1].endswith("::len") and set(y[2][0]) in ARR for y in x[2][0])
+                and all(is_adj(y) for y in x[2][1]) and bool(x[2][0]) and bool(x[2][1]) for x in ix)
+            ret = {strip_through(t) for t in go.of_local(0)}
+            # (the residual of `checked_sub(..)?` is carried as a term of the enclosing Option; it has no payload)
+            ok = ok and all((t[0] == "agg" and t[1] == "variable::Variable::Null") or (t[0] == "call" and t[1].endswith(("::get", "::checked_sub"))) for t in ret)
+            detail = "checked_sub + get"
+        elif ok and all(x[0] == "call" and x[1].endswith("::checked_sub") for x in go.of_operand(ic[0][1]["args"][1])) and go.of_operand(ic[0][1]["args"][1]):
+            # array[i] with Some(i) = array.len().checked_sub(max(n, 1)): i = len - adj < len because adj >= 1
+            def is_adj2(t):
+                return t[0] == "call" and t[1] in ("std::cmp::max", "std::cmp::Ord::max") and fs({("const", 1)}) in t[2] and fs({("param", 2)}) in t[2]
+            ok = go.of_operand(ic[0][1]["args"][0]) in ARR and all(
+                all(y[0] == "call" and y[1].endswith("::len") and set(y[2][0]) in ARR for y in x[2][0]) and all(is_adj2(y) for y in x[2][1]) and bool(x[2][0]) and bool(x[2][1])
+                for x in go.of_operand(ic[0][1]["args"][1]))
+            detail = "checked_sub + index"
+        elif ok:
             bb, t = ic[0]
             idx = go.of_operand(t["args"][1])
             arr = ("field", ("param", 1), "Array.0")
